@@ -669,6 +669,9 @@ impl InstrFormat for MsgHooks {
     }
 
     fn write_instr(&self, f: &mut BinWriter, emitter: &dyn Emitter, instr: &RawInstr) -> WriteResult {
+        if instr.param_mask != 0 {
+            return Err(emitter.as_sized().emit(error!("instructions have no parameter mask in this format (mask {:#x} would be lost)", instr.param_mask)));
+        }
         f.write_i16(llir::fit_instr_field(emitter, "time", instr.time)?)?;
         f.write_u8(llir::fit_instr_field(emitter, "opcode", instr.opcode)?)?;
         // this version writes argsize rather than instr size
